@@ -297,3 +297,10 @@ package casket
 //@ func executeShutdownCallbacks
 //@   modifies ghost:onceCalls, ghost:directRuns
 //@   ensures [callbacks_run_only_inside_the_once] onceCalls == old(onceCalls) + 1 && directRuns == old(directRuns)
+
+//@ unit helper_frames frames=on props=C11 nilchecks=on filter=`casket\.DirectiveAction$|casket\.checkFdlimit$`
+//@ // helpers that other units call through an empty contract ("frame-empty, promises nothing"): here each is verified
+//@ // against exactly that contract (safety and an empty frame), so that assumption is a proved fact
+//@ use @verif/specs/stdlib.spec:stdlib
+//@ func DirectiveAction
+//@ func checkFdlimit
